@@ -3,6 +3,7 @@ import PrysmVerif.Lemmas.C01Fourier
 import PrysmVerif.Lemmas.C01Param
 import PrysmVerif.Lemmas.PyArith
 import PrysmVerif.Lemmas.C01Cache
+import PrysmVerif.Lemmas.C01Cache2
 import PrysmVerif.Lemmas.C01Exp
 /-!
 # C01 — FFT, matrix-DFT and chirp-Z compute the same transform; no dependence on history
@@ -373,6 +374,74 @@ theorem exec_history_independent_czt {V B : Type} [DecidableEq V] (build : List 
       = (callStep ⟨cztKeyFields, cztBuildReads, build⟩ [] st).1 :=
   exec_history_independent ⟨cztKeyFields, cztBuildReads, build⟩ gen_czt_reads_subset_key ops st
 
+/-! ## executor dictionaries: the protocol of the source (several dictionaries, one probe) -/
+
+/-- `MatrixDFTExecutor` (translated from `__init__` / `_setup_bases` / every entry point / `clear`): something is probed,
+every dictionary an entry point indexes after `_setup_bases(key)` is written on the miss path, and `clear()` never empties
+an indexed dictionary while leaving every probed one filled -/
+theorem gen_mdft_cache_protocol : mdftProtoGen.WF := by decide
+
+/-- `ChirpZTransformExecutor`: the same -/
+theorem gen_czt_cache_protocol : cztProtoGen.WF := by decide
+
+/-- `MatrixDFTExecutor`, the dictionaries as the source handles them (`Ein` and `Eout`, only `Ein` probed): after ANY
+history of calls of ANY entry point (`dft2`, `idft2`, `dft2_backprop`, `idft2_backprop`; any arguments, any
+`config.precision`) and `clear()`s, a call finds every entry it indexes (no `KeyError`: each lookup is `some`), each entry
+is what the miss path builds for THIS call's arguments, and the whole answer equals that of a fresh executor — for every way
+the miss path may compute from what it reads (`build` arbitrary, per dictionary).  Induction over the history with the
+invariant `Val2OK ∧ Dom2OK`; consumes `gen_mdft_cache_protocol` and `gen_mdft_reads_subset_key` -/
+theorem exec_dicts_history_independent_mdft {V B : Type} [DecidableEq V] (build : String → List V → B)
+    (ops : List (Op V)) (st : St V) :
+    (callStep2 ⟨mdftKeyFields, mdftBuildReads, build, mdftProtoGen⟩
+        (runOps2 ⟨mdftKeyFields, mdftBuildReads, build, mdftProtoGen⟩ noDicts ops) st).1
+      = mdftProtoGen.useReads.map (fun d => some (build d (mdftBuildReads.map st))) ∧
+    (callStep2 ⟨mdftKeyFields, mdftBuildReads, build, mdftProtoGen⟩
+        (runOps2 ⟨mdftKeyFields, mdftBuildReads, build, mdftProtoGen⟩ noDicts ops) st).1
+      = (callStep2 ⟨mdftKeyFields, mdftBuildReads, build, mdftProtoGen⟩ noDicts st).1 :=
+  exec2_history_independent ⟨mdftKeyFields, mdftBuildReads, build, mdftProtoGen⟩ gen_mdft_cache_protocol
+    gen_mdft_reads_subset_key ops st
+
+/-- `ChirpZTransformExecutor` (`components`): the same -/
+theorem exec_dicts_history_independent_czt {V B : Type} [DecidableEq V] (build : String → List V → B)
+    (ops : List (Op V)) (st : St V) :
+    (callStep2 ⟨cztKeyFields, cztBuildReads, build, cztProtoGen⟩
+        (runOps2 ⟨cztKeyFields, cztBuildReads, build, cztProtoGen⟩ noDicts ops) st).1
+      = cztProtoGen.useReads.map (fun d => some (build d (cztBuildReads.map st))) ∧
+    (callStep2 ⟨cztKeyFields, cztBuildReads, build, cztProtoGen⟩
+        (runOps2 ⟨cztKeyFields, cztBuildReads, build, cztProtoGen⟩ noDicts ops) st).1
+      = (callStep2 ⟨cztKeyFields, cztBuildReads, build, cztProtoGen⟩ noDicts st).1 :=
+  exec2_history_independent ⟨cztKeyFields, cztBuildReads, build, cztProtoGen⟩ gen_czt_cache_protocol
+    gen_czt_reads_subset_key ops st
+
+/-- the invariant behind it, for every sound protocol and every history: an entry of an indexed dictionary is always the
+freshly built value for its key, and a key held by every probed dictionary is held by every indexed one -/
+theorem exec_dicts_invariant {V B : Type} [DecidableEq V] (x : Exec2 V B) (hwf : x.proto.WF)
+    (h : ∀ r ∈ x.buildReads, r ∈ x.keyFields) (ops : List (Op V)) :
+    Val2OK x (runOps2 x noDicts ops) ∧ Dom2OK x (runOps2 x noDicts ops) :=
+  runOps2_ok x hwf (keyDet2_of_subset x h) ops noDicts (noDicts_ok x hwf)
+
+/-! ## argument forms and the cache key -/
+
+/-- `MatrixDFTExecutor._key` and the head of `czt2` (translated): every parameter that may be given as one number is broadcast
+to a pair, `Q` is converted element-wise with `float`, sample counts with `int`, shifts enter as given — in BOTH engines alike -/
+theorem gen_key_norm : mdftKeyNormGen = mdftKeyNormRef ∧ cztKeyNormGen = cztKeyNormRef ∧
+    (∀ a ∈ cztKeyNormGen, a ∈ mdftKeyNormGen) ∧ (∀ a ∈ mdftKeyNormGen, a.broadcast = true) := by decide
+
+/-- two argument forms (scalar / pair, any element types) give the SAME key component exactly when they denote the same
+sampling after the element conversion (`conv`: `float(·)`, `int(·)`, identity — arbitrary here): same sampling → same key
+(one cache entry, one answer), different sampling → different key (no collision).  For every parameter of both engines
+(generated tables); no form raises -/
+theorem key_component_eq_iff {V : Type} (conv : String → V → V) (a : ArgNorm) (ha : a ∈ mdftKeyNormGen ∨ a ∈ cztKeyNormGen)
+    (x y : Arg V) :
+    (normArg conv a x).isSome ∧
+    (normArg conv a x = normArg conv a y ↔
+      conv a.conv x.den.1 = conv a.conv y.den.1 ∧ conv a.conv x.den.2 = conv a.conv y.den.2) := by
+  have hb : a.broadcast = true := by
+    rcases ha with h | h
+    · exact gen_key_norm.2.2.2 a h
+    · exact gen_key_norm.2.2.2 a (gen_key_norm.2.2.1 a h)
+  cases x <;> cases y <;> simp [normArg, Arg.den, hb]
+
 /-! ## non-vacuity and illustrations (examples, not counted as obligations) -/
 
 example : IsChar expKernel ∧ IsFaithful expKernel ∧ IsConj (starRingEnd ℂ) expKernel sqrtNrm :=
@@ -398,6 +467,29 @@ example :
         (fun s => if s = "Q" then 2 else 64)).1
       ≠ (callStep (V := Nat) (B := List Nat) ⟨["Q"], ["Q", "config.precision"], id⟩ []
         (fun s => if s = "Q" then 2 else 64)).1 := by decide
+
+/-- non-vacuity: the reference protocols are sound, and the hypotheses of `exec_dicts_invariant` are met by an executor
+with two key fields -/
+example : mdftProtoRef.WF ∧ cztProtoRef.WF := by decide
+example : (⟨["Q", "p"], ["Q", "p"], fun d l => (d, l), mdftProtoRef⟩ : Exec2 Nat (String × List Nat)).proto.WF ∧
+    ∀ r ∈ ["Q", "p"], r ∈ ["Q", "p"] := by decide
+
+/-- soundness of the protocol is necessary (1): a `clear()` that empties `Eout` only leaves `Ein` filled, the probe hits,
+and the next identical call raises `KeyError` on `Eout` (second lookup is `none`) -/
+example :
+    (callStep2 (V := Nat) (B := Nat) ⟨["Q"], ["Q"], fun _ l => l.length, ⟨["Ein"], ["Ein", "Eout"], ["Ein", "Eout"], ["Eout"]⟩⟩
+        (runOps2 ⟨["Q"], ["Q"], fun _ l => l.length, ⟨["Ein"], ["Ein", "Eout"], ["Ein", "Eout"], ["Eout"]⟩⟩ noDicts
+          [Op.call (fun _ => 2), Op.clear]) (fun _ => 2)).1 = [some 1, none] := by decide
+
+/-- (2): a miss path that forgets to store `Eout` raises `KeyError` on the very first call -/
+example :
+    (callStep2 (V := Nat) (B := Nat) ⟨["Q"], ["Q"], fun _ l => l.length, ⟨["Ein"], ["Ein"], ["Ein", "Eout"], ["Ein", "Eout"]⟩⟩
+        noDicts (fun _ => 2)).1 = [some 1, none] := by decide
+
+/-- `Q = 2` and `Q = (2.0, 2.0)` give one key component under a conversion that identifies them; a scalar that is NOT broadcast
+(the pinned `mdft` behaviour for lists was of this kind) has no key at all -/
+example : normArg (V := Int) (fun _ v => v) ⟨"Q", true, "float"⟩ (.scalar 2) = normArg (fun _ v => v) ⟨"Q", true, "float"⟩ (.pair 2 2) ∧
+    normArg (V := Int) (fun _ v => v) ⟨"Q", false, "float"⟩ (.scalar 2) = none := by decide
 
 /-- the pinned lag offset `(N−M)//2` equals the correct `N//2 − M//2` iff NOT (input length even and output length odd) -/
 example (n M : Int) : (n - M) / 2 = n / 2 - M / 2 ↔ ¬ (n % 2 = 0 ∧ M % 2 = 1) := by omega
